@@ -14,7 +14,13 @@ Open Scope N_scope.
    construction path (eager / deferred storage + BuildObjectTree, ValidateRawTreeDefault, ValidateFilterRawTree), the
    root being honest or mutated; code 1 = live / heads / ids / stored differ from Model/TreeAuth.v model_rootdel,
    code 2 = spec_roots false on what was observed (a root that is not authentic and authorised is in memory or on disk). *)
-Inductive case := CScen (sc : scenario) | CRoots (rw : rootworld).
+(* CRace: a scenario during which a concurrent ACL writer holds pending records while AddRawChanges runs; the harness
+   lets it take every lock-free point the call offers and reports how many records landed while the call was running
+   (rs_mid).  code 1 = some call's observables are those of NEITHER serial order (records before the call / after it;
+   Model/TreeAuth.v model_race with the serial order chosen call by call), code 2 = spec_race false (a change that is not
+   authentic and authorised at a record held when the call returned became part of the tree, or a rejected call left a
+   trace). *)
+Inductive case := CScen (sc : scenario) | CRoots (rw : rootworld) | CRace (rs : racescen).
 
 Definition hist_eqb (a b : list (rid * perm)) : bool :=
   list_eqb (fun x y => (fst x =? fst y) && (snd x =? snd y)) a b.
@@ -55,8 +61,58 @@ Definition rootdel_ok (me : acct) (ids : list rid) (sts : list state) (d : rootd
       end
   end.
 
+(* the serial order every call of a race scenario took, found call by call: "after" (false) when the observables are
+   those of [accept] under the entry view, otherwise "before" (true); the tree the model continues with is the one of
+   the chosen order *)
+Fixpoint race_choices (ids : list rid) (sts : list state) (t : atree) (ds : list delivery) (mid : list nat) : list bool :=
+  match ds with
+  | [] => []
+  | d :: rest =>
+      let run (n : nat) :=
+        match view_at ids sts n with
+        | None => None
+        | Some a =>
+            let '(t', r) := accept a t (d_batch d) in
+            Some (t', mkDel n (d_batch d) (ok_of r) (class_of r) (added_of r) (at_heads t') (iter_seq t') (at_stored t')
+                            (map (fun c => memN (rc_id c) (at_stored t')) (d_batch d)))
+        end in
+      let late := run (d_acl_len d + hd O mid)%nat in
+      match run (d_acl_len d) with
+      | Some (t', m) =>
+          if del_eqb m d then false :: race_choices ids sts t' rest (tl mid)
+          else match late with
+               | Some (t2, _) => true :: race_choices ids sts t2 rest (tl mid)
+               | None => []
+               end
+      | None => []
+      end
+  end.
+
+Definition race_model_ok (rs : racescen) : bool :=
+  let sc := rs_sc rs in
+  let ids := acl_ids (sc_aclroot sc) (sc_recs sc) in
+  let ch :=
+    match acl_states (sc_me sc) (sc_owner sc) (sc_aclroot sc) (sc_recs sc) with
+    | None => []
+    | Some sts =>
+        match view_at ids sts (sc_root_len sc) with
+        | None => []
+        | Some a => match build a (sc_root sc) (sc_derived sc) with
+                    | None => []
+                    | Some t0 => race_choices ids sts t0 (sc_dels sc) (rs_mid rs)
+                    end
+        end
+    end in
+  let m := rs_sc (model_race ch rs) in
+  hists_ok sc &&
+  Bool.eqb (sc_built m) (sc_built sc) &&
+  sameset (sc_heads0 m) (sc_heads0 sc) && sameset (sc_iter0 m) (sc_iter0 sc) &&
+  sameset (sc_stored0 m) (sc_stored0 sc) &&
+  list_eqb del_eqb (sc_dels m) (sc_dels sc).
+
 Definition model_ok (c : case) : bool :=
   match c with
+  | CRace rs => race_model_ok rs
   | CRoots rw =>
       rw_hists_ok rw &&
       match acl_states (rw_me rw) (rw_owner rw) (rw_aclroot rw) (rw_recs rw) with
@@ -72,7 +128,7 @@ Definition model_ok (c : case) : bool :=
       list_eqb del_eqb (sc_dels m) (sc_dels sc)
   end.
 
-Definition spec_ok (c : case) : bool := match c with CScen sc => spec_C02 sc | CRoots rw => spec_roots rw end.
+Definition spec_ok (c : case) : bool := match c with CScen sc => spec_C02 sc | CRoots rw => spec_roots rw | CRace rs => spec_race rs end.
 
 Fixpoint check_from (i : N) (l : list case) : list (N * N) :=
   match l with
